@@ -8,6 +8,7 @@ from ..core import FUNC, call_attr, calls_in, const, dotted, is_const, kwarg, no
 from .c09 import waiter_rule, _stored_in_cancelled_table
 
 EXPLANATION = [
+    'C16.pending-indication: Server.on_disconnection cancels the confirmation future it removes, and the indication coroutine\'s `finally` does not re-create an entry for a bearer that is gone.',
     'C16.device-cleanup: in Device.on_disconnection every subsystem clean-up call (GATT server, ...) is guarded exactly like the emission of the disconnection event: no extra condition such as the link-layer role.',
     'C16.smp-sessions: Session.on_disconnection reports the end of the session to the manager on every path and the manager removes it from its table; the session registers for its connection\'s disconnection event.',
     'C16.parity: the host tears a link down in one place (Host.on_disconnection: event to listeners, host tables, three data queues); '
@@ -283,7 +284,38 @@ def device_cleanup(ctx):
                 f'{dotted(c.func)} runs only under {[g for g in gc if g not in ge]}: for the other connections the subsystem keeps its per-connection state (e.g. GATT subscriptions of a server on the central) after the link is gone', p.loc(c))
 
 
+
+def pending_indication(ctx):
+    """An indication that waits for its confirmation is released when its bearer goes away, and leaves no entry behind."""
+    R, p = ctx.r, ctx.p
+    rule = 'C16.pending-indication'
+    od = p.find('bumble.gatt_server.Server.on_disconnection')
+    ind = p.find('bumble.gatt_server.Server._indicate_single_bearer')
+    if od is None or ind is None:
+        R.bad(rule, 'bumble.gatt_server.Server.on_disconnection/_indicate_single_bearer', 'anchor missing')
+        return
+    pops = [n for n in walk_local(od) if isinstance(n, (ast.Assign, ast.NamedExpr)) and isinstance(n.value, ast.Call) and call_attr(n.value) == 'pop' and dotted(n.value.func.value) == 'self.pending_confirmations']
+    ok = False
+    if pops:
+        var = dotted(pops[0].targets[0]) if isinstance(pops[0], ast.Assign) else dotted(pops[0].target)
+        ok = any(dotted(c.func) in (f'{var}.cancel', f'{var}.set_exception') for c in calls_in(od))
+    R.check(ok, rule, 'bumble.gatt_server.Server.on_disconnection | pending confirmation released', 'the future removed from pending_confirmations is cancelled',
+            'the pending confirmation of a closed bearer is dropped from the table but not cancelled: the indicate call waits for the whole GATT timeout', p.loc(od))
+    # nothing is re-inserted for a bearer that has been torn down meanwhile
+    bad = []
+    for t in [x for x in ast.walk(ind) if isinstance(x, ast.Try)]:
+        for s_ in t.finalbody:
+            for x in ast.walk(s_):
+                if isinstance(x, ast.Assign) and isinstance(x.targets[0], ast.Subscript) and dotted(x.targets[0].value) == 'self.pending_confirmations':
+                    g = [(norm(tt), pol) for tt, pol in paths.flat_guards(x, stop=t)]
+                    if ('bearer in self.pending_confirmations', True) not in g:
+                        bad.append(p.loc(x))
+    R.check(not bad, rule, 'bumble.gatt_server.Server._indicate_single_bearer | no entry resurrected', 'the slot is reset in `finally` only if the bearer still has an entry',
+            'the `finally` clause writes pending_confirmations[bearer] after the bearer may have been torn down: an entry for the closed connection reappears in the table', bad[0] if bad else p.loc(ind))
+
+
 RULES = [
+    ('C16.pending-indication', pending_indication),
     ('C16.device-cleanup', device_cleanup),
     ('C16.smp-sessions', smp_sessions),
     ('C16.parity', parity),
